@@ -30,7 +30,9 @@ KINDS = ["dup-writer-same", "dup-writer-overlap-slice", "dup-writer-parent", "bl
          # two update blocks reach one writing @s.func helper (directly or through intermediate helpers)
          "two-blocks-one-writing-func",
          # two overlapping slices of one wire are sinks of the SAME net (the shared bits are driven twice by one writer)
-         "overlapping-sinks-in-one-net"]
+         "overlapping-sinks-in-one-net",
+         # a register bit selected by a SIGNAL on the left of <<= (the constant-index form is op-ilshift-slice-in-ff)
+         "ff-variable-bit-index"]
 
 
 def plan(tier, seed):
@@ -239,6 +241,13 @@ def inject(rng, design, kind):
       newblk(cls, "zz_owb", "comb", [["=", ow, ["c", 1, None]]])
       cls["connects"].insert(rng.randrange(len(cls["connects"]) + 1), [{"path": "zz_oi", "steps": [], "lo": 0, "w": w}, ow])
       return d, {ST}, dict(info, port="zz_oi")
+    if kind == "ff-variable-bit-index":
+      cls["signals"] += [{"name": "zz_vr", "kind": "Wire", "type": 8, "list": None}, {"name": "zz_vi", "kind": "Wire", "type": 3, "list": None}]
+      vi = {"path": "zz_vi", "steps": [], "lo": 0, "w": 3}
+      newblk(cls, "zz_vib", "comb", [["=", vi, ["c", 1, None]]])
+      b = {"name": "zz_vrb", "kind": "ff", "stmts": [], "emit_stmts": [["raw", rng.choice(["s.zz_vr[s.zz_vi] <<= 1", "s.zz_vr[s.zz_vi:s.zz_vi+2] <<= 1"])]]}
+      cls["blocks"].insert(rng.randrange(len(cls["blocks"]) + 1), b)
+      return d, {UN}, info
     if kind == "overlapping-sinks-in-one-net":
       w = rng.choice([8, 16]); k_ = rng.choice([2, 4])
       a = rng.randrange(0, w - k_ - 1); b = rng.randrange(a + 1, min(a + k_, w - k_))      # [a:a+k) and [b:b+k) overlap
